@@ -296,6 +296,8 @@ type Facts struct {
 	GoroutineAccess      [][4]string `json:"goroutineAccess"`
 	AnteDecorators       []string    `json:"anteDecorators"`
 	MsgServerFirstChecks [][2]string `json:"msgServerFirstChecks"`
+	AppWiring            [][2]string `json:"appWiring"`
+	ModuleOrder          [][2]string `json:"moduleOrder"`
 }
 
 func main() {
@@ -333,6 +335,8 @@ func main() {
 	f.GoroutineAccess = w.goroutineAccess(*depth)
 	f.AnteDecorators = w.anteDecorators()
 	f.MsgServerFirstChecks = w.msgServerFirstChecks(strings.Split(*msgMods, ","))
+	f.AppWiring = w.appWiring()
+	f.ModuleOrder = w.moduleOrder()
 	f.RegisteredMsgs = []string{}
 	f.RegisteredServices = []string{}
 	if *msgs != "" {
